@@ -1276,6 +1276,157 @@ def gen_dircopy(ctx, cs, n):
         ctx.count("use:dircopy scenarios")
 
 
+# --- from a storage announcement to the seeds: real NativeStorageServer / HTTPNativeStorageServer -------------------
+#
+# lease.rst: the peer id that enters the bucket secrets is the server's Tub id (the id in its storage FURL); the write
+# enabler uses the same node id (mutable.rst).  The permutation seed a server announces only orders servers (C32).  Real
+# server objects are built from announcements of every shape and their getters, and the secrets the real Checker /
+# ServermapUpdater(add_lease) / MutableFileNode / Tahoe2ServerSelector put on the wire for them, are compared with the
+# spec for THE FURL'S TUB ID and with the model (`nativeserver`, `chkaddlease`, `mutaddlease`, `renew`, …).
+
+ANN_SHAPES = ["modern", "legacy", "legacy-relocated", "legacy-relocated-32", "no-seed", "no-seed-nonpubkey-id", "short-seed"]
+
+
+def make_announcement_case(rng, shape=None, http=None):
+    shape = shape or rng.choice(ANN_SHAPES)
+    tubid = rsecret(rng, 20)
+    pub = rbytes(rng, 32)
+    server_id = (b"v0-" + b32(pub)) if shape != "no-seed-nonpubkey-id" else (b"srv-" + b32(rbytes(rng, 5)))
+    seed = {"modern": pub, "legacy": tubid, "legacy-relocated": rsecret(rng, 20), "legacy-relocated-32": rbytes(rng, 32),
+            "no-seed": None, "no-seed-nonpubkey-id": None, "short-seed": rbytes(rng, 10)}[shape]
+    return {"type": "announce", "shape": shape, "http": (rng.random() < 0.35) if http is None else http,
+            "server_id": server_id.decode("ascii"), "tubid": _h(tubid), "seed": None if seed is None else _h(seed),
+            "swiss": _h(rbytes(rng, 20)), "secret": _h(rsecret(rng, 32)), "si": _h(rbytes(rng, 16)), "wk": _h(rbytes(rng, 16)),
+            "fp": _h(rbytes(rng, 32))}
+
+
+class _Wire:
+    """records what reaches the storage server; plays both the foolscap RemoteReference (callRemote) and the
+    IStorageServer of the HTTP client (direct methods)"""
+
+    def __init__(self):
+        self.calls = []
+        self.version = {b"http://allmydata.org/tahoe/protocols/storage/v1": {b"maximum-immutable-share-size": 2 ** 40,
+                                                                             b"maximum-mutable-share-size": 2 ** 40}}
+
+    def callRemote(self, methname, *args, **kwargs):
+        from twisted.internet import defer
+        self.calls.append((methname, args))
+        if methname in ("get_buckets", "slot_readv"):
+            return defer.succeed({})
+        if methname == "allocate_buckets":
+            return defer.succeed((set(), {}))
+        return defer.succeed(None)
+
+    def notifyOnDisconnect(self, *a, **kw): return None
+    def get_version(self): return self.callRemote("get_version")
+    def get_buckets(self, si): return self.callRemote("get_buckets", si)
+    def slot_readv(self, si, shares, readv): return self.callRemote("slot_readv", si, shares, readv)
+    def add_lease(self, si, renew, cancel): return self.callRemote("add_lease", si, renew, cancel)
+
+    def allocate_buckets(self, si, renew, cancel, sharenums, size, canary):
+        return self.callRemote("allocate_buckets", si, renew, cancel, sharenums, size, canary)
+
+
+def run_announcement_case(ctx, cs, A):
+    import re
+    from twisted.internet import task
+    from allmydata import uri
+    from allmydata.client import SecretHolder
+    from allmydata.monitor import Monitor
+    from allmydata.node import config_from_string
+    from allmydata.storage_client import NativeStorageServer, HTTPNativeStorageServer, StorageClientConfig, ANONYMOUS_STORAGE_NURLS
+    from allmydata.immutable import upload
+    from allmydata.immutable.checker import Checker
+    from allmydata.mutable.filenode import MutableFileNode
+    from allmydata.mutable.servermap import ServermapUpdater, ServerMap
+    from allmydata.mutable.common import MODE_CHECK
+    import common
+    shape, http = A["shape"], A["http"]
+    tag = shape + (":http" if http else "")
+    tubid, secret, si, wk, fp = _u(A["tubid"]), _u(A["secret"]), _u(A["si"]), _u(A["wk"]), _u(A["fp"])
+    seed = None if A["seed"] is None else _u(A["seed"])
+    server_id = A["server_id"].encode("ascii")
+    ann = {"anonymous-storage-FURL": "pb://%s@tcp:127.0.0.1:1/%s" % (b32(tubid).decode("ascii"), b32(_u(A["swiss"])).decode("ascii")),
+           "nickname": "srv-" + shape}
+    if seed is not None:
+        ann["permutation-seed-base32"] = b32(seed).decode("ascii")
+    wire = _Wire()
+    if http:
+        ann[ANONYMOUS_STORAGE_NURLS] = ["pb://%s@127.0.0.1:1/%s#v=1" % (b32(_pat(7, 32)).decode("ascii"), b32(_pat(9, 16)).decode("ascii"))]
+        srv = HTTPNativeStorageServer(server_id, ann, {"tcp": "tcp"}, reactor=task.Clock())
+        srv._istorage_server = wire            # what a successful connection would have installed
+        srv._version = wire.version
+        from allmydata.util.connection_status import ConnectionStatus
+        srv._connection_status = ConnectionStatus(True, "connected", {}, 0.0, 0.0)
+    else:
+        cfg = config_from_string(common.WORK + "/c17-unused-node", "", "")
+        srv = NativeStorageServer(server_id, ann, None, {}, cfg, StorageClientConfig())
+        srv._rref = wire                       # what NativeStorageServer._got_connection does, minus the network
+        srv._is_connected = True
+    args = {"history": A, "step": "announcement"}
+    # -- the seeds the server object answers; model inputs are the decoded announcement, parsed here independently
+    m = re.match(rb"^v0-([0-9a-zA-Z]{52})$", server_id)
+    pubkey = unb32(m.group(1)) if m else None
+    want_perm = seed if seed is not None else (pubkey if pubkey is not None else hashlib.sha256(server_id).digest())
+    got = (srv.get_permutation_seed(), srv.get_tubid(), srv.get_lease_seed(), srv.get_foolscap_write_enabler_seed())
+    line = "nativeserver %s %s %s %s %s" % ("http" if http else "foolscap", hx(server_id), hx(tubid),
+                                            "none" if seed is None else hx(seed), "none" if pubkey is None else hx(pubkey))
+    cs.add("announcement->seeds " + tag, line, ":".join(hx(x) for x in got), ":".join(hx(x) for x in (want_perm, tubid, tubid, tubid)),
+           args=args, signature=("lease-seed-not-tubid:" + tag) if got[2] != tubid else ("server-seeds-differ:" + tag))
+    ctx.count("announce:" + tag)
+    sh = SecretHolder(secret, b"convergence")
+    tok = srv_tok(server_id, tubid, tubid, 0)          # the record the SPEC prescribes for this server
+
+    class OneServerBroker:
+        def get_servers_for_psi(self, psi, for_upload=False): return [srv]
+        def get_connected_servers(self): return [srv]
+        def get_all_serverids(self): return [srv.get_serverid()]
+
+    def sent(meth):
+        out = [a for (mn, a) in wire.calls if mn == meth]
+        del wire.calls[:]
+        return out
+
+    def lease_case(what, line, got_si, want_si, renew, cancel):
+        cs.add("announcement %s: %s" % (tag, what), line, "%s:%s:%s" % (hx(got_si), hx(renew), hx(cancel)),
+               guard(lambda: "%s:%s:%s" % (hx(want_si), hx(r_renew(secret, want_si, tubid)), hx(r_cancel(secret, want_si, tubid)))),
+               args=dict(args, step=what), signature="lease-seed-not-tubid:%s:%s" % (tag, what))
+
+    # -- immutable check --add-lease
+    vcap = uri.CHKFileVerifierURI(si, fp, 3, 10, 12345)
+    Checker(vcap, [srv], verify=False, add_lease=True, secret_holder=sh, monitor=Monitor()).start().addErrback(lambda f: None)
+    for (s_si, s_r, s_c) in sent("add_lease"):
+        lease_case("checker add_lease", "chkaddlease %s %s %s" % (hx(secret), hx(si), tok), s_si, si, s_r, s_c)
+    # -- uploader: allocate_buckets
+    sel = upload.Tahoe2ServerSelector(b"c17", upload_status=upload.UploadStatus(), reactor=task.Clock())
+    sel.get_shareholders(OneServerBroker(), sh, si, 1000, 100, 1, 1, 1, 1, 500).addErrback(lambda f: None)
+    for a in sent("allocate_buckets"):
+        lease_case("upload allocate_buckets", "chkaddlease %s %s %s" % (hx(secret), hx(si), tok), a[0], si, a[1], a[2])
+    # -- mutable node getters and mutable check --add-lease
+    cap = uri.WriteableSSKFileURI(wk, fp)
+    msi = REF1["ssk_storage_index_hash"](REF1["ssk_readkey_hash"](wk))
+    node = MutableFileNode(OneServerBroker(), sh, {"k": 3, "n": 10}, None).init_from_cap(cap)
+    cs.add("announcement %s: MutableFileNode.get_renewal_secret" % tag, "renew %s %s %s" % (hx(secret), hx(msi), hx(tubid)),
+           guard(node.get_renewal_secret, srv), guard(r_renew, secret, msi, tubid), args=dict(args, step="node renew"),
+           signature="lease-seed-not-tubid:%s:node-renew" % tag)
+    cs.add("announcement %s: MutableFileNode.get_cancel_secret" % tag, "cancel %s %s %s" % (hx(secret), hx(msi), hx(tubid)),
+           guard(node.get_cancel_secret, srv), guard(r_cancel, secret, msi, tubid), args=dict(args, step="node cancel"),
+           signature="lease-seed-not-tubid:%s:node-cancel" % tag)
+    cs.add("announcement %s: MutableFileNode.get_write_enabler" % tag, "f2 ssk_write_enabler_hash %s %s" % (hx(wk), hx(tubid)),
+           guard(node.get_write_enabler, srv), guard(_r_we, wk, tubid), args=dict(args, step="node write enabler"),
+           signature="write-enabler-seed-not-tubid:%s" % tag)
+    ServermapUpdater(node, OneServerBroker(), Monitor(), ServerMap(), MODE_CHECK, add_lease=True).update().addErrback(lambda f: None)
+    for (s_si, s_r, s_c) in sent("add_lease"):
+        lease_case("servermap add_lease", "mutaddlease %s %s %s" % (hx(secret), hx(wk), tok), s_si, msi, s_r, s_c)
+
+
+def gen_announcements(ctx, cs, n):
+    for i in range(n):
+        A = make_announcement_case(ctx.rng)
+        attempt(ctx, "announcement->seeds", lambda: run_announcement_case(ctx, cs, A))
+
+
 def gen_grid_use(ctx, cs, n):
     for i in range(n):
         S = make_grid_scenario(ctx.rng)
@@ -1290,7 +1441,8 @@ def gen_grid_use(ctx, cs, n):
 
 
 HISTORY_RUNNERS = {"objects": run_object_history, "selector": run_selector_history, "dirnode": run_dirnode_history,
-                   "pool": run_pool_history, "grid": run_grid_scenario, "dircopy": run_dircopy_scenario}
+                   "pool": run_pool_history, "grid": run_grid_scenario, "dircopy": run_dircopy_scenario,
+                   "announce": run_announcement_case}
 
 
 def gen_histories(ctx, cs, n):
@@ -1388,6 +1540,8 @@ def extracted_constants_monitor(ctx):
 #                     out first / in the middle / last; a grid with a read-only server; add-lease and the leases on disk
 #   corpus:dircopy (seeded C17-d) — directories created from another directory's listing (AuxValueDict) by every route,
 #                     modified copies, in-place modification: each rwcap field under the NEW directory's child-cap key
+#   corpus:announcement (seeded C17-e) — real NativeStorageServer / HTTPNativeStorageServer from announcements of every shape
+#                     (modern, legacy, legacy-relocated 20-byte seed != TubID, no seed, …): lease seed = the FURL's Tub id
 #   corpus:caps, corpus:dirnode — cap classes and dirnode child-cap keys on crossed arguments (call-site mutations of round 1)
 
 def _pat(start, n, step=1):
@@ -1468,6 +1622,18 @@ def fixed_corpus(ctx, cs):
     Sd = {"type": "dircopy", "seed": 17, "src_mdmf": False, "routes": list(DIRCOPY_ROUTES),
           "children": ["imm", "m1", "m2", "ro", "sub"], "data": _h(_pat(0x20, 200, 3))}
     attempt(ctx, "corpus:dircopy", lambda: run_dircopy_scenario(ctx, cs, Sd))
+    # -- C17-e: announcement -> seeds; the lease seed is the FURL's Tub id whatever permutation seed is announced
+    for n, shape in enumerate(ANN_SHAPES):
+        for http in (False, True):
+            tub = _pat(0x15 + 9 * n, 20, 3)
+            pub = _pat(0x40 + n, 32, 5)
+            sid = (b"v0-" + b32(pub)) if shape != "no-seed-nonpubkey-id" else b"srv-legacyname"
+            seed = {"modern": pub, "legacy": tub, "legacy-relocated": _pat(0xc1 + n, 20, 7), "legacy-relocated-32": _pat(0xd1, 32, 3),
+                    "no-seed": None, "no-seed-nonpubkey-id": None, "short-seed": _pat(0x33, 10)}[shape]
+            Ae = {"type": "announce", "shape": shape, "http": http, "server_id": sid.decode("ascii"), "tubid": _h(tub),
+                  "seed": None if seed is None else _h(seed), "swiss": _h(_pat(0x77, 20)), "secret": _h(_pat(0x0b + n, 32, 3)),
+                  "si": _h(_pat(0x61 + n, 16)), "wk": _h(_pat(0x81 + n, 16, 5)), "fp": _h(_pat(0x30, 32))}
+            attempt(ctx, "corpus:announcement " + shape, lambda: run_announcement_case(ctx, cs, Ae))
     ctx.count("corpus cases", len(cs.rows))
 
 
@@ -1488,6 +1654,7 @@ def run(ctx):
              ("call-site histories", lambda: gen_histories(ctx, cs, ctx.budget(40, 1200))),
              ("secrets at the point of use (in-process grid)", lambda: gen_grid_use(ctx, cs, ctx.budget(8, 150))),
              ("dirnode child-cap keys at the point of use (in-process grid)", lambda: gen_dircopy(ctx, cs, ctx.budget(2, 40))),
+             ("announcement -> seeds (real NativeStorageServer objects)", lambda: gen_announcements(ctx, cs, ctx.budget(60, 2000))),
              ("derive_mutable_keys", lambda: gen_mutable_keys(ctx, cs, ctx.budget(2, 12)))]
     if os.environ.get("VERIF_CORPUS_ONLY") == "1":
         ctx.note("VERIF_CORPUS_ONLY=1: only the fixed corpus was run (%d cases)" % len(cs.rows))
